@@ -150,7 +150,7 @@ func VerifC01HandshakeResidue() {
 	verifrt.Assert(err == nil, "the real server accepts the real client's handshake")
 	respLen := len(sc.Out)
 
-	n := verifrt.Pick("data_len", 0, 2)
+	n := []int{2, 0, 1}[verifrt.Pick("data_len_class", 0, verifrt.Param("data_classes")-1)]
 	data := verifrt.Bytes("data", n)
 	if n > 0 {
 		_, err = srv.Write(data)
@@ -161,8 +161,8 @@ func VerifC01HandshakeResidue() {
 	// network may cut it anywhere around the end of the handshake response
 	cc := verifrt.NewConn("cli", sc.Out)
 	cc.MaxChunks = 1
-	cuts := []int{0, respLen - inlineSeedFrameLength, respLen - inlineSeedFrameLength + 1, respLen - 1, respLen, respLen + 1}
-	if c := cuts[verifrt.Pick("cut", 0, len(cuts)-1)]; c > 0 && c < len(sc.Out) {
+	cuts := []int{0, respLen, respLen - inlineSeedFrameLength, respLen + 1, respLen - 1, respLen - inlineSeedFrameLength + 1}
+	if c := cuts[verifrt.Pick("cut", 0, verifrt.Param("cut_classes")-1)]; c > 0 && c < len(sc.Out) {
 		cc.Cuts = []int{c}
 	}
 	client := vClientConn(cc)
